@@ -20,6 +20,9 @@ Library objects (all opaque in the repository: `cryptography`, python-axolotl, h
                                                 last byte f is known, 1 <= f <= B, and the last f bytes all equal f
     hmac.new(k, msg?, digestmod) update* digest -> MAC(k, digest, m)                      32 / 20 / 16 / 64 bytes ; hexdigest / .hex() -> HEX(x)
     HEX(x)[2a:2b] = HEX(x[a:b])
+    hashlib.sha1() / md5 / sha256 ... update* digest -> HASH(name, m) ; for a known key HMAC(k, H, m) is written out as
+                                                HASH(H, (k' ^ opad) || HASH(H, (k' ^ ipad) || m)), k' = k zero-padded to the block size
+    base64.b64encode / b64decode                -> B64(x), b64decode(B64(x)) = x ; constants are computed
 Everything else that touches one of these objects is recorded in `notes` (the rule reports UNDECIDED, it does not guess).
 """
 import ast
@@ -78,7 +81,7 @@ class BytesAlg:
                 return [("const", bytes(v[1]))] if v[1] else []
             if v[0] == "c" and isinstance(v[1], str) and v[1] == "":
                 return []
-            if self.kind(v) == "bytes":
+            if self.kind(v) in ("bytes", "bytearray"):
                 m = self.meta[v[1].id]
                 if any(a[0] == "defer" for a in m["atoms"]):
                     m["atoms"] = self.normalise(m["atoms"])
@@ -172,7 +175,7 @@ class BytesAlg:
 
     # ------------------------------------------------------------------ interpreter protocol: operators
     def slice(self, it, b, lo, hi, st):
-        if self.kind(b) != "bytes":
+        if self.kind(b) not in ("bytes", "bytearray"):
             return None
         atoms = self.meta[b[1].id]["atoms"]
         n = self.total(atoms)
@@ -190,7 +193,7 @@ class BytesAlg:
         return self.bt(it, self.cut(atoms, s, max(s, e)))
 
     def index(self, it, b, k):
-        if self.kind(b) != "bytes":
+        if self.kind(b) not in ("bytes", "bytearray"):
             return None
         atoms = self.meta[b[1].id]["atoms"]
         n = self.total(atoms)
@@ -215,12 +218,13 @@ class BytesAlg:
         if isinstance(op, ast.Mult):
             for x, y in ((l, r), (r, l)):
                 xa = self.atoms_of(x)
-                if xa is not None and self.kind(x) == "bytes" and y[0] == "c" and isinstance(y[1], int) and 0 <= y[1] <= 4096:
+                if xa is not None and self.kind(x) in ("bytes", "bytearray") and y[0] == "c" and isinstance(y[1], int) and 0 <= y[1] <= 4096:
                     return self.bt(it, xa * y[1])
         return None
 
     def equal(self, it, a, b):
         ka, kb = self.kind(a), self.kind(b)
+        ka, kb = ("bytes" if ka == "bytearray" else ka), ("bytes" if kb == "bytearray" else kb)
         if "bytes" not in (ka, kb):
             if ka is not None and kb is not None:
                 return a[1] is b[1]
@@ -232,15 +236,23 @@ class BytesAlg:
         self.events.append(("compare", r))
         return r
 
+    def iadd(self, it, cur, rhs):
+        """`x += y`: a bytearray is extended in place (the object every holder of it sees); bytes get a new value"""
+        if self.kind(cur) == "bytearray":
+            return self.call(it, cur, "__iadd__", [rhs], {}, {}, 0)
+        return None
+
     def truth(self, it, v):
-        if self.kind(v) == "bytes":
+        if self.kind(v) in ("bytes", "bytearray"):
             n = self.total(self.meta[v[1].id]["atoms"])
             return (n > 0) if n is not None else True
         return True
 
     def builtin(self, it, name, args, kwargs):
         a0 = args[0]
-        if self.kind(a0) == "bytes":
+        if self.kind(a0) in ("bytes", "bytearray"):
+            if name == "bytearray" and len(args) == 1:
+                return self._new(it, "bytearray", atoms=self.normalise(self.atoms_of(a0)))
             if name == "len":
                 n = self.total(self.meta[a0[1].id]["atoms"])
                 if n is None:
@@ -272,6 +284,15 @@ class BytesAlg:
         return self.bt(it, out)
 
     def get(self, it, b, name, env, depth):
+        m = self.meta[b[1].id]
+        if m["kind"] in ("hash", "hmac") and name in ("block_size", "digest_size", "name"):
+            dn = m.get("name") or m.get("digest")
+            if name == "name":
+                return ("c", dn)
+            if name == "digest_size" and dn in DIGEST_LEN:
+                return ("c", DIGEST_LEN[dn])
+            if name == "block_size" and dn in DIGEST_LEN:
+                return ("c", 128 if dn in ("sha512", "sha384") else 64)
         return ("bound", b, name)
 
     def set(self, it, b, name, v, env, depth):
@@ -345,7 +366,64 @@ class BytesAlg:
                 out.append(self.bt(it, piece))
                 pos += n
             return ("list", out)
-        hk = {"extcall": extcall, "ext:*.PKCS7": pkcs7, "ext:*.new": hmac_new, "ext:*.compare_digest": compare_digest, "ext:*.split": split}
+        def hasher(name):
+            def h(it, recv, a, k, env, d, e):
+                if not recv[1].split(".")[-1].split(" ")[-1].startswith("hashlib"):
+                    return None
+                ctx = self._new(it, "hash", name=name, inputs=[])
+                if a:
+                    self.call(it, ctx, "update", [a[0]], {}, env, d)
+                return ctx
+            return h
+
+        def hashlib_new(it, recv, a, k, env, d, e):
+            return None
+
+        def b64(encode):
+            def h(it, recv, a, k, env, d, e):
+                if not recv[1].split(".")[-1].split(" ")[-1].startswith("base64") or not a:
+                    return None
+                x = it.force(a[0]) if hasattr(it, "force") else a[0]
+                import base64 as _b
+                if x[0] == "c" and isinstance(x[1], (bytes, bytearray, str)):
+                    try:
+                        return ("c", _b.b64encode(bytes(x[1])) if encode else _b.b64decode(x[1]))
+                    except Exception as ex:
+                        raise _exc(type(ex).__name__, str(ex))
+                atoms = self.atoms_of(x)
+                if atoms is None:
+                    return None
+                atoms = self.normalise(atoms)
+                if encode:
+                    n = self.total(atoms)
+                    nm = ("B64", tuple(atoms))
+                    return self.content(it, nm, 4 * ((n + 2) // 3) if n is not None else None)
+                if len(atoms) == 1 and atoms[0][0] == "sym" and isinstance(atoms[0][1], tuple) and atoms[0][1][:1] == ("B64",) and atoms[0][2] == 0 and atoms[0][3] == self.base_len.get(atoms[0][1]):
+                    return self.bt(it, list(atoms[0][1][1]))        # b64decode(b64encode(x)) = x
+                nm = ("UNB64", tuple(atoms))
+                return self.content(it, nm, None)
+            return h
+        def bytearray_(it, e, args, kwargs, env, depth):
+            # a bytearray is an object that can be changed in place: modelled as one (append / extend / += are seen by
+            # every name that refers to it)
+            if not args:
+                return self._new(it, "bytearray", atoms=[])
+            x = it.force(args[0]) if hasattr(it, "force") else args[0]
+            x = it.concrete(x) if x[0] == "atom" else x
+            if x[0] == "c" and isinstance(x[1], int) and 0 <= x[1] <= 1 << 16:
+                return self._new(it, "bytearray", atoms=self.normalise([("const", bytes(x[1]))]))
+            if x[0] == "c" and isinstance(x[1], (list, tuple)) and all(isinstance(y, int) and 0 <= y < 256 for y in x[1]):
+                return self._new(it, "bytearray", atoms=self.normalise([("const", bytes(x[1]))]))
+            if x[0] == "list" and not (len(x) > 2 and x[2]) and all(y[0] == "c" and isinstance(y[1], int) and 0 <= y[1] < 256 for y in x[1]):
+                return self._new(it, "bytearray", atoms=self.normalise([("const", bytes(y[1] for y in x[1]))]))
+            xa = self.atoms_of(x)
+            if xa is not None:
+                return self._new(it, "bytearray", atoms=self.normalise(xa))
+            return None
+        hk = {"builtin:bytearray": bytearray_, "extcall": extcall, "ext:*.PKCS7": pkcs7, "ext:*.new": hmac_new, "ext:*.compare_digest": compare_digest, "ext:*.split": split,
+              "ext:*.b64encode": b64(True), "ext:*.b64decode": b64(False), "ext:*.standard_b64encode": b64(True), "ext:*.standard_b64decode": b64(False)}
+        for n in DIGEST_LEN:
+            hk["ext:*." + n] = hasher(n)
         for n in ("AES", "TripleDES", "Camellia", "ChaCha20", "Blowfish", "ARC4"):
             hk["ext:*." + n] = alg(n)
         for n in ("CBC", "ECB", "CTR", "GCM", "CFB", "OFB"):
@@ -366,7 +444,26 @@ class BytesAlg:
     def call(self, it, recv, name, args, kwargs, env, depth):
         m = self.meta[recv[1].id]
         k = m["kind"]
-        if k == "bytes":
+        if k == "bytearray" and name in ("append", "extend", "clear", "__iadd__"):
+            if name == "clear":
+                m["atoms"] = []
+                return C_NONE
+            x = it.concrete(args[0]) if args and args[0][0] == "atom" else (args[0] if args else C_NONE)
+            if name == "append":
+                if x[0] == "c" and isinstance(x[1], int) and 0 <= x[1] < 256:
+                    m["atoms"] = self.normalise(m["atoms"] + [("const", bytes([x[1]]))])
+                    return C_NONE
+                self.notes.append("bytearray.append of a value that is not a known byte")
+                m["atoms"] = self.normalise(m["atoms"] + [("sym", ("BYTE?", len(self.notes)), 0, 1)])
+                return C_NONE
+            xa = self.atoms_of(x)
+            if xa is None and x[0] == "list" and all(y[0] == "c" and isinstance(y[1], int) for y in x[1]):
+                xa = [("const", bytes(y[1] for y in x[1]))]
+            if xa is None:
+                raise _exc("TypeError", "bytearray.%s() wants bytes" % name)
+            m["atoms"] = self.normalise(m["atoms"] + xa)
+            return recv if name == "__iadd__" else C_NONE
+        if k in ("bytes", "bytearray"):
             return self.bytes_method(it, recv, m, name, args, kwargs)
         if k == "hkdf" and name == "deriveSecrets" and len(args) >= 3:
             n = it.concrete(args[2]) if args[2][0] == "atom" else args[2]
@@ -402,7 +499,35 @@ class BytesAlg:
                 m["result"] = self.finish(it, m)
                 self.events.append(("finalize", k))
                 return self.bt(it, [("defer", recv[1].id, "fin")])
+        if k == "hash":
+            if name == "update" and len(args) == 1:
+                a = self.atoms_of(args[0])
+                if a is None:
+                    raise _exc("TypeError", "hash.update() wants bytes")
+                m["inputs"].append(a)
+                return C_NONE
+            if name in ("digest", "hexdigest") and not args:
+                msg = self.normalise([x for part in m["inputs"] for x in part])
+                v = self.content(it, ("HASH", m["name"], tuple(msg)), DIGEST_LEN[m["name"]])
+                return v if name == "digest" else self.hexed(it, v)
+            if name == "copy":
+                return self._new(it, "hash", name=m["name"], inputs=list(m["inputs"]))
         if k == "hmac":
+            if name in ("digest", "hexdigest") and not args and m["digest"] in DIGEST_LEN:
+                key = self.atoms_of(m["key"])
+                block = 128 if m["digest"] in ("sha512", "sha384") else 64
+                if key is not None and all(a[0] == "const" for a in key):
+                    # a known key: HMAC(K, m) = H((K' ^ opad) || H((K' ^ ipad) || m)),  K' = K zero-padded to the block
+                    # (longer keys are hashed first: that case keeps the opaque form)
+                    kb = b"".join(a[1] for a in key)
+                    if len(kb) <= block:
+                        kb = kb + b"\x00" * (block - len(kb))
+                        msg = self.normalise([x for part in m["inputs"] for x in part])
+                        inner = ("HASH", m["digest"], tuple(self.normalise([("const", bytes(b ^ 0x36 for b in kb))] + msg)))
+                        self.base_len[inner] = DIGEST_LEN[m["digest"]]
+                        outer = ("HASH", m["digest"], tuple(self.normalise([("const", bytes(b ^ 0x5C for b in kb)), ("sym", inner, 0, DIGEST_LEN[m["digest"]])])))
+                        v = self.content(it, outer, DIGEST_LEN[m["digest"]])
+                        return v if name == "digest" else self.hexed(it, v)
             if name == "update" and len(args) == 1:
                 a = self.atoms_of(args[0])
                 if a is None:
@@ -433,6 +558,9 @@ class BytesAlg:
         atoms = m["atoms"]
         if name == "hex" and not args:
             return self.hexed(it, recv)
+        if name in ("encode", "decode") and len(args) <= 2:
+            return recv          # text of ASCII content and its bytes are the same sequence here
+
         if name in ("rstrip", "lstrip", "strip") and len(args) <= 1:
             chars = self.atoms_of(args[0]) if args else [("const", b" \t\n\r\x0b\x0c")]
             if chars is None or any(a[0] != "const" for a in chars):
